@@ -1,3 +1,4 @@
 import HermesProps.AuditCmd
 import HermesProps.C12
 import HermesProps.C17
+import HermesProps.C01
